@@ -1,7 +1,7 @@
 SPECIFICATION Spec
 CONSTANTS Nib = {0, 1}
           KeyLen = 2
-          Vals = {10, 331}
+          Vals = {281, 291}
           Pad = 0
           MaxKeys = 4
           EmitRows = TRUE
